@@ -1,0 +1,24 @@
+//go:build verif
+
+package transform
+
+import "io"
+
+// VerifReadIndexFile decodes an index file with the package's own reader and returns its content
+// as key -> ascending block numbers (verification hook, add-only, compiled only with -tags verif).
+func VerifReadIndexFile(r io.ReadCloser) (map[string][]uint64, error) {
+	idx, err := ReadNewBlockIndex(r)
+	if err != nil {
+		return nil, err
+	}
+	out := make(map[string][]uint64, len(idx.kv))
+	for k, v := range idx.kv {
+		out[k] = v.ToArray()
+	}
+	return out, nil
+}
+
+// VerifParseIndexFilename exposes parseIndexFilename.
+func VerifParseIndexFilename(name string) (size, base uint64, shortname string, err error) {
+	return parseIndexFilename(name)
+}
